@@ -73,7 +73,7 @@ def model_steps(deliveries):
     steps = []
     for x in deliveries:
         steps.append(({"ev": "Ins", "b": x["d"]}, True))
-        steps.append(({"ev": "Ver", "b": x["d"], "res": x["res"]}, x["res"] == "ok"))
+        steps.append(({"ev": "Ver", "b": x["d"], "res": x["res"], "tipd": x.get("tip") == x["d"]}, x["res"] == "ok"))
         if x["res"] == "err":
             steps.append(({"ev": "Del", "b": x["d"]}, True))
     return steps
